@@ -10,7 +10,8 @@ RULE = ("every operator (+ - * // / % divmod, == != < <= > >=, unary - abs + has
         "systematically (type table); seeded random pairs with either sign and magnitudes 1 us .. 2^31 s; floor/modulo sign combinations; round-half-even ties "
         "(usec = (2k+1)*b/2 for / int, x.5 products for * float and / float); zero divisors (both sides must raise the same); Durations with years/months for "
         "neg / abs / int scaling / comparisons; Intervals on the left; operands in the float band 2^31..2^33 s and beyond (known finding float-total-resolution); "
-        "results at the timedelta range limits (OverflowError); prim-* streams compare the translated _divide_and_round / _to_microseconds and the hand-written "
+        "results at the timedelta range limits (OverflowError); // / % divmod of a Duration / Interval by a PLAIN timedelta (the repaired finding div-by-plain-timedelta: "
+        "its former witness 3 days // 5 hours for all four operators, both signs, divisors 1 us .. 2^31 s, exact multiples, zero); prim-* streams compare the translated _divide_and_round / _to_microseconds and the hand-written "
         "float helpers (as_integer_ratio, int/int, divmod(int, float), Duration(seconds=float)) with the implementation directly. "
         "A case is non-trivial when an operand is non-zero.")
 EXHAUSTIVE = {"quick": False, "thorough": False}
@@ -310,6 +311,21 @@ def cases(tier, seed):
         unop("far-neg", "neg", v_dur(a, rnd=rnd))
     binop("band-addsub", "add", v_dur(-2240990336911072), v_dur(-564728395307133))
     binop("band-mul-int", "mul", v_dur(-4433329909397), v_int(617))
+    # 8b. // / % divmod by a PLAIN timedelta (finding div-by-plain-timedelta, repaired): the former witness and its neighbourhood are ordinary
+    #     cases that must pass the oracle (the native quotient / remainder) and the correspondence
+    for op in DIVOPS:
+        for l in (v_dur(3 * DAY_US), v_ivl(3 * DAY_US), v_dur(-3 * DAY_US), v_dur(3 * DAY_US + 1, rnd=rnd)):
+            for r in (v_td(5 * 3600 * US), v_td(-5 * 3600 * US), v_td(1), v_td(3 * DAY_US), v_td(TD_MAX * DAY_US)):
+                binop("div-by-plain-timedelta", op, l, r)
+    for _ in range(300 * scale):
+        op = rnd.choice(DIVOPS)
+        b = rand_n(rnd) or 1
+        if rnd.random() < 0.4:
+            b = rnd.choice([1, -1]) * rnd.randrange(1, 10 ** rnd.randrange(1, 10))
+        a = b * rnd.randint(-10 ** 4, 10 ** 4) + rnd.choice([0, 0, 1, -1, b // 2]) if rnd.random() < 0.4 else rand_n(rnd)
+        if abs(a) >= B31:
+            a = rand_n(rnd)
+        binop("div-by-plain-timedelta", op, rand_tdlike(rnd, a, kinds=PEND), v_td(b))
     # 9. the timedelta range: results that overflow
     for _ in range(60 * scale):
         a = rnd.choice([1, -1]) * (TD_MAX * DAY_US - rnd.randrange(0, 3 * DAY_US))
@@ -633,7 +649,9 @@ def known(c, backend, r):
         return None
     a = c["args"]
     op, vals = a[0], a[1:]
-    # 1. // / % divmod of a Duration (or Interval) by a PLAIN timedelta: AttributeError
+    # 1. // / % divmod of a Duration (or Interval) by a PLAIN timedelta: AttributeError (`other._to_microseconds()`: only Duration has it).
+    #    Repaired (status "fixed" in known_findings/C10.json suppresses nothing): the predicate stays so that a regression is reported
+    #    under this id, as a VIOLATION with the failing input.
     if (c["fn"] == "binop" and op in DIVOPS and vals[0][0] in ("dur", "ivl") and vals[1][0] == "td" and r == [1, "AttributeError"]):
         return "div-by-plain-timedelta"
     # 2. float reconstruction: + - int* (and everything through Interval.as_duration / _to_microseconds beyond 2^33 s) lose microseconds once an
@@ -663,9 +681,10 @@ def known(c, backend, r):
 
 LEVEL_TEXT = ("Machine-checked Coq theorems about an executable model of Duration's operators assembled from translated integer parts (_divide_and_round, _to_microseconds, "
               "every integer constructor argument, the isinstance return-type table) and hand-modelled SpecFloat parts, equal to the implementation on every run (both backends): "
-              "_divide_and_round is round-half-even of the exact quotient for all integers; negation, floor/true division, modulo, divmod, float scaling agree with exact timedelta "
-              "arithmetic; + - and int scaling agree given explicit float premises (validated each run) below 2^31 s; return-type table; comparisons and hash are timedelta's.")
+              "_divide_and_round is round-half-even of the exact quotient for all integers; negation, floor/true division, modulo, divmod (by an int / float, by a Duration and by a "
+              "plain timedelta alike: the operand kind is proved irrelevant), float scaling agree with exact timedelta arithmetic; + - and int scaling agree given explicit float premises (validated each run) below 2^31 s; return-type table; comparisons and hash are timedelta's.")
 DESIGN_REF = "DESIGN.md section 4 C10"
 LEVEL_NOTE = ("Two float premises (exactness of Duration(seconds=<float>) for sums/products below 2^31 s) and C09's float_split premise are explicit hypotheses of the *_partial theorems, "
-              "not axioms. Defects of the current code are proved as *_refuted witnesses: division by a plain timedelta raises AttributeError; + - lose a microsecond from 2^31 s.")
+              "not axioms. The remaining defect of the current code is proved as *_refuted witnesses: + - and int * lose a microsecond from 2^31 s. Division by a plain timedelta "
+              "(formerly AttributeError, finding div-by-plain-timedelta) is repaired: div_mod_by_timedelta_spec / div_by_timedelta_agrees hold at full strength and a regression is a VIOLATION.")
 TECHNIQUE = "translator (py2gallina + per-branch constructor-argument extraction) + Coq proof (lia/nia over floor division, vm_compute witnesses) + differential correspondence + stdlib timedelta/Fraction oracle"
